@@ -357,6 +357,7 @@ StepArgsT = ObjT("Namespace", rest_file=OptT(Str), info_file=OptT(Str), wildcard
 @contract("cli.py", "make_pipeline_from_args", props=["C11", "C05", "C04"], name="make_pipeline_from_args:steps")
 def builder_steps(c):
     """The segment of make_pipeline_from_args that assembles the step list (from `def make_filter` to `modifiers = []`)."""
+    c.replay_grid = ["C11", "C05", "C04"]
     c.body_from = "def make_filter(predicate1, predicate2, path1, path2, pair_filter_mode=pair_filter_mode)"
     c.body_until = "modifiers = []"
     c.types(args=StepArgsT, paired=Bool, outfiles=ObjT("OutputFiles"), input_file_format=ObjT("FileFormatLike", qualities=Bool),
